@@ -2,9 +2,12 @@ package main
 
 import (
 	"math/bits"
+	"path/filepath"
+	"sort"
 	"strconv"
 	"strings"
 	"unicode"
+	"unicode/utf8"
 )
 
 // registerIntrinsics3: pure standard-library string helpers, executed natively on concrete
@@ -80,6 +83,84 @@ func registerIntrinsics3(e *Engine) {
 	I["unicode.IsPunct"] = func(e *Engine, fr *frame, a []Value) Value { return unicode.IsPunct(rune(asInt(a[0]))) }
 	I["math/bits.Len"] = func(e *Engine, fr *frame, a []Value) Value { return int64(bits.Len(uint(asInt(a[0])))) }
 	I["math/bits.Len64"] = func(e *Engine, fr *frame, a []Value) Value { return int64(bits.Len64(uint64(asInt(a[0])))) }
+	// more of the standard library a changed /repo may reach for
+	i2("strings.LastIndexAny", strings.LastIndexAny)
+	s1("path/filepath.Base", filepath.Base)
+	s1("path/filepath.Dir", filepath.Dir)
+	s1("path/filepath.Ext", filepath.Ext)
+	s1("path/filepath.Clean", filepath.Clean)
+	s1("strings.ToTitle", strings.ToTitle)
+	I["strings.LastIndexByte"] = func(e *Engine, fr *frame, a []Value) Value {
+		return int64(strings.LastIndexByte(e.cs(a[0]), byte(asInt(a[1]))))
+	}
+	I["strings.Cut"] = func(e *Engine, fr *frame, a []Value) Value {
+		b, af, ok := strings.Cut(e.cs(a[0]), e.cs(a[1]))
+		return Tuple{b, af, ok}
+	}
+	I["strings.CutPrefix"] = func(e *Engine, fr *frame, a []Value) Value {
+		af, ok := strings.CutPrefix(e.cs(a[0]), e.cs(a[1]))
+		return Tuple{af, ok}
+	}
+	I["strings.CutSuffix"] = func(e *Engine, fr *frame, a []Value) Value {
+		b, ok := strings.CutSuffix(e.cs(a[0]), e.cs(a[1]))
+		return Tuple{b, ok}
+	}
+	I["unicode/utf8.RuneCountInString"] = func(e *Engine, fr *frame, a []Value) Value { return int64(utf8.RuneCountInString(e.cs(a[0]))) }
+	I["unicode/utf8.RuneLen"] = func(e *Engine, fr *frame, a []Value) Value { return int64(utf8.RuneLen(rune(asInt(a[0])))) }
+	I["unicode/utf8.ValidString"] = func(e *Engine, fr *frame, a []Value) Value { return utf8.ValidString(e.cs(a[0])) }
+	for name, f := range map[string]func(rune) bool{"unicode.IsControl": unicode.IsControl, "unicode.IsGraphic": unicode.IsGraphic, "unicode.IsPrint": unicode.IsPrint,
+		"unicode.IsSymbol": unicode.IsSymbol, "unicode.IsNumber": unicode.IsNumber, "unicode.IsTitle": unicode.IsTitle, "unicode.IsMark": unicode.IsMark} {
+		f := f
+		if _, have := I[name]; !have {
+			I[name] = func(e *Engine, fr *frame, a []Value) Value { return f(rune(e.concreteInt(a[0], "rune"))) }
+		}
+	}
+	I["unicode.ToTitle"] = func(e *Engine, fr *frame, a []Value) Value { return int64(unicode.ToTitle(rune(asInt(a[0])))) }
+	I["strconv.ParseBool"] = func(e *Engine, fr *frame, a []Value) Value {
+		b, err := strconv.ParseBool(e.cs(a[0]))
+		if err != nil {
+			return Tuple{false, e.errorValue(err.Error())}
+		}
+		return Tuple{b, Iface{}}
+	}
+	I["strconv.Unquote"] = func(e *Engine, fr *frame, a []Value) Value {
+		r, err := strconv.Unquote(e.cs(a[0]))
+		if err != nil {
+			return Tuple{"", e.errorValue(err.Error())}
+		}
+		return Tuple{r, Iface{}}
+	}
+	lessAt := func(e *Engine, fr *frame, less Value, i, j int) bool {
+		r := e.call(fr, less, []Value{int64(i), int64(j)}, nil)
+		if b, ok := r.(bool); ok {
+			return b
+		}
+		return e.decide(r.(*Term))
+	}
+	I["sort.SliceStable"] = I["sort.Slice"] // the insertion sort of sort.Slice's model is stable
+	I["sort.SliceIsSorted"] = func(e *Engine, fr *frame, a []Value) Value {
+		n := len(sliceElems(a[0].(Iface).v.(Slice)))
+		for i := n - 1; i > 0; i-- {
+			if lessAt(e, fr, a[1], i, i-1) {
+				return false
+			}
+		}
+		return true
+	}
+	I["sort.StringsAreSorted"] = func(e *Engine, fr *frame, a []Value) Value {
+		var ss []string
+		for _, x := range sliceElems(a[0].(Slice)) {
+			ss = append(ss, e.cs(x))
+		}
+		return sort.StringsAreSorted(ss)
+	}
+	I["sort.SearchStrings"] = func(e *Engine, fr *frame, a []Value) Value {
+		var ss []string
+		for _, x := range sliceElems(a[0].(Slice)) {
+			ss = append(ss, e.cs(x))
+		}
+		return int64(sort.SearchStrings(ss, e.cs(a[1])))
+	}
 	I["sort.Ints"] = func(e *Engine, fr *frame, a []Value) Value {
 		s := a[0].(Slice)
 		el := sliceElems(s)
